@@ -35,8 +35,12 @@ def proof_items():
 def _cases(tier, rng):
     for _ in range(900 if tier == "quick" else 9000):
         d = dag.gen_dag(rng, rng.randint(1, 4))
-        for out in dag.all_outputs(d):
+        outs = dag.all_outputs(d)
+        for out in outs:
             yield {"dag": d, "output": out, "with_dag": rng.random() < 0.5}
+        if len(outs) >= 2:
+            o1, o2 = rng.sample(outs, 2)
+            yield {"dag": d, "output": o1, "second_output": o2, "with_dag": True}
 
 
 def _check(case):
@@ -80,6 +84,8 @@ def _check(case):
         return bad
     finally:
         progs.set_log(None)
+    if case.get("second_output"):
+        return bad + _two_outputs_in_one_dag(case, d)
     if tg is not None:
         g = tg.graph
         if not nx.is_directed_acyclic_graph(g):
@@ -118,6 +124,37 @@ def _check(case):
             bad.append(f"task-graph edges {sorted(got_edges)} != dependencies {sorted(want_edges)}")
         if set(fname.values()) != set(calls):
             bad.append(f"task-graph function tasks {sorted(set(fname.values()))} != needed functions {sorted(set(calls))}")
+    return bad
+
+
+def _two_outputs_in_one_dag(case, d):
+    """Two requests inside one construct_dag() block: shared producers are served from the task-graph cache."""
+    from pipefunc.lazy import _LazyFunction, construct_dag
+    o1, o2 = case["output"], case["second_output"]
+    need = dag.needed_roots(d, o1, set()) | dag.needed_roots(d, o2, set())
+    kw_all = {r: f"v_{r}" for r in need}
+    bad = []
+    try:
+        w1, _, c1 = dag.refeval(d, o1, {k: v for k, v in kw_all.items() if k in dag.needed_roots(d, o1, set())})
+        w2, _, c2 = dag.refeval(d, o2, {k: v for k, v in kw_all.items() if k in dag.needed_roots(d, o2, set())})
+    except dag.NotComputable:
+        return []
+    p = dag.build(d, lazy=True)
+    log: list = []
+    progs.set_log(log)
+    try:
+        with construct_dag():
+            r1 = p(o1, **{k: v for k, v in kw_all.items() if k in dag.needed_roots(d, o1, set())})
+            r2 = p(o2, **{k: v for k, v in kw_all.items() if k in dag.needed_roots(d, o2, set())})
+        if log:
+            bad.append("functions invoked before evaluate() (two requests in one construct_dag block)")
+        g1, g2 = r1.evaluate(), r2.evaluate()
+        if g1 != w1 or g2 != w2:
+            bad.append(f"two requests in one dag: got ({g1!r}, {g2!r}) want ({w1!r}, {w2!r})")
+    except Exception as e:  # noqa: BLE001
+        bad.append(f"two requests in one construct_dag block raised {type(e).__name__}: {str(e)[:150]}")
+    finally:
+        progs.set_log(None)
     return bad
 
 
